@@ -73,6 +73,7 @@ type Exec struct {
 	zarrSeen map[string]bool
 	heapReads []heapRead
 	rootFrame *Frame
+	lawState *State
 	accessorState *State // state in which defined accessors are evaluated
 	allFuncs map[string]*ssa.Function
 	namedFuns map[string]*namedFun
